@@ -79,11 +79,14 @@ def run_one(m, build, baseline):
 def main():
     ap = argparse.ArgumentParser()
     ap.add_argument("--build", action="store_true"); ap.add_argument("--baseline", action="store_true")
-    ap.add_argument("--only", default=""); ap.add_argument("--jobs", type=int, default=6); ap.add_argument("--json", default="")
+    ap.add_argument("--only", default=""); ap.add_argument("--prop", default=""); ap.add_argument("--jobs", type=int, default=6); ap.add_argument("--json", default="")
     a = ap.parse_args()
     muts = load()
     if a.only:
         ids = set(a.only.split(",")); muts = [m for m in muts if m["id"] in ids or any(m["id"].startswith(i) for i in ids)]
+    if a.prop:
+        muts = [m for m in muts if a.prop in m["props"]]
+        for m in muts: m["props"] = [a.prop]
     results = []
     with cf.ThreadPoolExecutor(max_workers=a.jobs) as ex:
         for r in ex.map(lambda m: run_one(m, a.build, a.baseline), muts):
